@@ -46,6 +46,13 @@ impl<'a> StatementEvaluator<'a> {
             Some(Token::Data(_)) => Ok(()),
             Some(Token::Let) => self.evaluate_let_statement(),
             Some(Token::Symbol(symbol)) => self.evaluate_assignment_statement(symbol),
+            Some(Token::Else) if self.program().is_else_of_then_clause() => {
+                // We got here because the statement in the THEN clause of an
+                // IF transferred control or suspended evaluation (GOSUB, INPUT,
+                // STOP, FOR) and we have now come back to just after it. The
+                // IF statement would have skipped the ELSE clause, so do that.
+                Ok(self.program().discard_remaining_tokens())
+            }
             Some(_) => Err(SyntaxError::UnexpectedToken.into()),
             None => Ok(()),
         }
